@@ -23,10 +23,11 @@ Record impl := mkImpl {
   pol_codec : bool;               (* Optic.to_dict encodes a PolarizationState (else: stores the object) *)
   image_from_dict : bool;         (* ImageSurface has its own _from_dict (else: TypeError on reload) *)
   aperture_none_ok : bool;        (* Optic.from_dict accepts 'aperture': None (else: TypeError) *)
-  pickups_applied_on_load : bool  (* PickupManager.from_dict re-applies the pickups to the reloaded lens *)
+  pickups_applied_on_load : bool; (* PickupManager.from_dict re-applies the pickups to the reloaded lens *)
+  plane_conic : bool              (* Plane.to_dict / from_dict carry the conic constant kept on a flat surface *)
 }.
 
-Definition impl_fixed : impl := mkImpl true true true true false.
+Definition impl_fixed : impl := mkImpl true true true true false true.
 
 Section Model.
   Variable A : Type.
@@ -40,7 +41,7 @@ Section Model.
   Inductive cs := CS (x y z rx ry rz : A) (ref : option cs).
 
   Inductive geom :=
-  | GPlane (c : cs)
+  | GPlane (c : cs) (conic : option A)   (* a non-zero conic given to the flat surface (attribute k), if any *)
   | GStd (c : cs) (R k : A)
   | GEven (c : cs) (R k tol : A) (maxit : Z) (coef : list A)
   | GPoly (c : cs) (R k tol : A) (maxit : Z) (coef : list (list A))
@@ -100,9 +101,15 @@ Section Model.
                ("reference_cs", match r with Some c' => e_cs c' | None => JNull end)]
     end.
 
-  Definition e_geom (g : geom) : J :=
+  (** [pc]: the plane_conic flag of the implementation.  Without it the conic of a flat surface is dropped. *)
+  Definition e_geom (pc : bool) (g : geom) : J :=
     match g with
-    | GPlane c => JDict [("type", JStr "Plane"); ("cs", e_cs c); ("radius", JNum c_inf)]
+    | GPlane c ko =>
+        JDict (match ko with
+               | Some k => if pc then [("type", JStr "Plane"); ("cs", e_cs c); ("radius", JNum c_inf); ("conic", JNum k)]
+                           else [("type", JStr "Plane"); ("cs", e_cs c); ("radius", JNum c_inf)]
+               | None => [("type", JStr "Plane"); ("cs", e_cs c); ("radius", JNum c_inf)]
+               end)
     | GStd c R k => JDict [("type", JStr "StandardGeometry"); ("cs", e_cs c); ("radius", JNum R); ("conic", JNum k)]
     | GEven c R k tol mi cf =>
         JDict [("type", JStr "EvenAsphere"); ("cs", e_cs c); ("radius", JNum R); ("conic", JNum k);
@@ -151,13 +158,13 @@ Section Model.
 
   Definition e_surface (s : surface) : J :=
     match s with
-    | SObject g post => JDict [("type", JStr "ObjectSurface"); ("geometry", e_geom g); ("material_post", e_material post)]
+    | SObject g post => JDict [("type", JStr "ObjectSurface"); ("geometry", e_geom (plane_conic I) g); ("material_post", e_material post)]
     | SStandard g pre post st ap co bs rf =>
-        JDict [("type", JStr "Surface"); ("geometry", e_geom g); ("material_pre", e_material pre);
+        JDict [("type", JStr "Surface"); ("geometry", e_geom (plane_conic I) g); ("material_pre", e_material pre);
                ("material_post", e_material post); ("is_stop", JBool st); ("aperture", e_opt e_pap ap);
                ("coating", e_opt e_coating co); ("bsdf", e_opt e_bsdf bs); ("is_reflective", JBool rf)]
     | SImage g pre ap =>     (* ImageSurface inherits Surface.to_dict; __init__ fixed post:=pre, no stop/coating/bsdf *)
-        JDict [("type", JStr "ImageSurface"); ("geometry", e_geom g); ("material_pre", e_material pre);
+        JDict [("type", JStr "ImageSurface"); ("geometry", e_geom (plane_conic I) g); ("material_pre", e_material pre);
                ("material_post", e_material pre); ("is_stop", JBool false); ("aperture", e_opt e_pap ap);
                ("coating", JNull); ("bsdf", JNull); ("is_reflective", JBool false)]
     end.
@@ -256,11 +263,14 @@ Section Model.
     end.
 
   (** BaseGeometry.from_dict: dispatch on 'type' through the registry *)
-  Definition d_geom (j : J) : option geom :=
+  Definition d_geom (pc : bool) (j : J) : option geom :=
     d <- d_dict j ;;
     ty <- match get "type" d with Some (JStr s) => Some s | _ => None end ;;
     if String.eqb ty "Plane" then
-      c <- req d_cs "cs" d ;; Some (GPlane c)
+      c <- req d_cs "cs" d ;;
+      ko <- (if pc then match get "conic" d with Some j => k <- d_num j ;; Some (Some k) | None => Some None end
+             else Some None) ;;
+      Some (GPlane c ko)
     else if String.eqb ty "StandardGeometry" then
       c <- req d_cs "cs" d ;; R <- req d_num "radius" d ;; k <- dflt d_num "conic" d c_zero ;; Some (GStd c R k)
     else if String.eqb ty "EvenAsphere" then
@@ -330,14 +340,14 @@ Section Model.
     d <- d_dict j ;;
     ty <- req d_str "type" d ;;
     if String.eqb ty "ObjectSurface" then
-      g <- req d_geom "geometry" d ;; m <- req d_material "material_post" d ;; Some (SObject g m)
+      g <- req (d_geom (plane_conic I)) "geometry" d ;; m <- req d_material "material_post" d ;; Some (SObject g m)
     else if String.eqb ty "ImageSurface" then
       if image_from_dict I then
-        g <- req d_geom "geometry" d ;; m <- req d_material "material_pre" d ;;
+        g <- req (d_geom (plane_conic I)) "geometry" d ;; m <- req d_material "material_pre" d ;;
         ap <- req (d_optobj d_pap) "aperture" d ;; Some (SImage g m ap)
       else None       (* Surface._from_dict calls ImageSurface(...) with 8 positional arguments: TypeError *)
     else
-      g <- req d_geom "geometry" d ;; m1 <- req d_material "material_pre" d ;; m2 <- req d_material "material_post" d ;;
+      g <- req (d_geom (plane_conic I)) "geometry" d ;; m1 <- req d_material "material_pre" d ;; m2 <- req d_material "material_post" d ;;
       ap <- req (d_optobj d_pap) "aperture" d ;; co <- req (d_optobj d_coating) "coating" d ;;
       bs <- req (d_optobj d_bsdf) "bsdf" d ;; st <- req d_bool "is_stop" d ;; rf <- req d_bool "is_reflective" d ;;
       Some (SStandard g m1 m2 st ap co bs rf).
@@ -427,6 +437,11 @@ Section Model.
   Definition surf_image (s : surface) : bool := match s with SImage _ _ _ => true | _ => false end.
   Definition has_fresnel (l : lens) : bool := existsb surf_fresnel (l_surfs l).
   Definition has_image_class (l : lens) : bool := existsb surf_image (l_surfs l).
+  Definition geom_plane_conic (g : geom) : bool := match g with GPlane _ (Some _) => true | _ => false end.
+  Definition surf_geom (s : surface) : geom :=
+    match s with SObject g _ | SStandard g _ _ _ _ _ _ _ | SImage g _ _ => g end.
+  Definition surf_plane_conic (s : surface) : bool := geom_plane_conic (surf_geom s).
+  Definition has_plane_conic (l : lens) : bool := existsb surf_plane_conic (l_surfs l).
   Definition has_polstate (l : lens) : bool := match l_pol l with PIgnore => false | _ => true end.
   Definition no_aperture (l : lens) : bool := match l_ap l with None => true | _ => false end.
 
@@ -436,7 +451,8 @@ Section Model.
 
   (** the reload code path exists for everything in the lens *)
   Definition loadable (l : lens) : bool :=
-    (negb (has_image_class l) || image_from_dict I) && (negb (no_aperture l) || aperture_none_ok I).
+    (negb (has_image_class l) || image_from_dict I) && (negb (no_aperture l) || aperture_none_ok I)
+    && (negb (has_plane_conic l) || plane_conic I).
 
   End WithImpl.
 
@@ -458,7 +474,7 @@ Arguments e_opt {A X}. Arguments bind {X Y}. Arguments req {A X}. Arguments dflt
 Arguments find_with {A X}.
 Arguments coating_fresnel {A}. Arguments surf_fresnel {A}. Arguments surf_image {A}. Arguments has_fresnel {A}.
 Arguments has_image_class {A}. Arguments has_polstate {A}. Arguments no_aperture {A}. Arguments live_free {A}.
-Arguments loadable {A}. Arguments e_bsdf {A}. Arguments e_pap {A}. Arguments d_bsdf {A}. Arguments d_pap {A}.
+Arguments loadable {A}. Arguments geom_plane_conic {A}. Arguments surf_geom {A}. Arguments surf_plane_conic {A}. Arguments has_plane_conic {A}. Arguments e_bsdf {A}. Arguments e_pap {A}. Arguments d_bsdf {A}. Arguments d_pap {A}.
 Arguments e_field {A}. Arguments e_wave {A}. Arguments e_sysap {A}. Arguments e_pickup {A}. Arguments e_solve {A}.
 Arguments d_solve {A}. Arguments d_wave_args {A}. Arguments w_prim {A}. Arguments w_unset {A}. Arguments w_unit {A}.
 Arguments noprim {A}. Arguments e_ostr {A}. Arguments e_onum {A}. Arguments d_ostr {A}. Arguments d_onum {A}.
